@@ -67,7 +67,8 @@ func c06Build(fam string, s gen.Signed, aux int, form adapt.ELSKeyForm) (*c06Bui
 			}, refmodel.AuthLeaseSet}, nil
 	case "LeaseSet2":
 		v, err := adapt.LeaseSet2(s.Value.(refmodel.LeaseSet2), s.Signer)
-		if err != nil {
+		var am adapt.ErrArgumentMutated
+		if err != nil && !(errors.As(err, &am) && v != nil) { // (argument mutation is C02's clause; the value is still judged here)
 			return nil, err
 		}
 		return &c06Built{v, "lease_set2.NewLeaseSet2", v.Verify, v.Bytes,
